@@ -21,6 +21,10 @@ pub struct Case {
     /// earlier proofs made and verified on the same pair of transcripts (borrowed form,
     /// `Prover::new(pc, &mut t)`); the subject continues on them
     pub chain: Vec<Program>,
+    /// party capacity of the prover's / verifier's generators (the protocol uses party 0 only)
+    pub parties: (usize, usize),
+    /// generators built small and grown with `increase_capacity` instead of `new(cap, ..)`
+    pub grown: bool,
 }
 
 #[derive(Debug)]
@@ -36,8 +40,18 @@ pub fn run_case<G: Cv>(env: &Env<G>, c: &Case, seed: u64) -> Out {
     let (bpp, bpv): (&BulletproofGens<G>, &BulletproofGens<G>) = match c.caps {
         None => (&env.bp, &env.bp),
         Some((p, v)) => {
-            bp_p = BulletproofGens::new(p, 1);
-            bp_v = BulletproofGens::new(v, 1);
+            let mk = |cap: usize, parties: usize| {
+                if c.grown {
+                    let mut g = BulletproofGens::<G>::new(cap.min(1), parties);
+                    g.increase_capacity((cap + 1) / 2);
+                    g.increase_capacity(cap);
+                    g
+                } else {
+                    BulletproofGens::<G>::new(cap, parties)
+                }
+            };
+            bp_p = mk(p, c.parties.0);
+            bp_v = mk(v, c.parties.1);
             (&bp_p, &bp_v)
         }
     };
@@ -141,14 +155,14 @@ pub fn cases(tier: Tier) -> (Vec<Case>, serde_json::Value) {
     let n_shape = progs.len();
     for (i, p) in progs.into_iter().enumerate() {
         match tier {
-            Tier::Quick => out.push(Case { curve: CURVES[i % 3], prog: p, caps: None, class: "shape", hist: vec![], chain: vec![] }),
+            Tier::Quick => out.push(Case { curve: CURVES[i % 3], prog: p, caps: None, class: "shape", hist: vec![], chain: vec![], parties: (1, 1), grown: false }),
             Tier::Thorough => {
                 // depth-4 layer: one curve per program (round-robin); everything shallower: all curves
                 if p.p1.len() == 4 || (p.p1.len() == 3 && p.closures.iter().any(|c| c.len() == 2)) {
-                    out.push(Case { curve: CURVES[i % 3], prog: p, caps: None, class: "shape", hist: vec![], chain: vec![] });
+                    out.push(Case { curve: CURVES[i % 3], prog: p, caps: None, class: "shape", hist: vec![], chain: vec![], parties: (1, 1), grown: false });
                 } else {
                     for c in CURVES {
-                        out.push(Case { curve: c, prog: p.clone(), caps: None, class: "shape", hist: vec![], chain: vec![] });
+                        out.push(Case { curve: c, prog: p.clone(), caps: None, class: "shape", hist: vec![], chain: vec![], parties: (1, 1), grown: false });
                     }
                 }
             }
@@ -168,9 +182,14 @@ pub fn cases(tier: Tier) -> (Vec<Case>, serde_json::Value) {
                     if tier == Tier::Quick && a != b && !(a == 0 && b == 3) && !(a == 3 && b == 0) {
                         continue;
                     }
-                    out.push(Case { curve: c, prog: p.clone(), caps: Some((*cp, *cv)), class: "size", hist: vec![], chain: vec![] });
+                    out.push(Case { curve: c, prog: p.clone(), caps: Some((*cp, *cv)), class: "size", hist: vec![], chain: vec![], parties: (1, 1), grown: false });
                     n_size += 1;
                 }
+            }
+            // generators with several parties and generators grown by increase_capacity
+            for (parties, grown) in [((2, 1), false), ((1, 3), false), ((1, 1), true), ((3, 2), true)] {
+                out.push(Case { curve: c, prog: p.clone(), caps: Some((nh, 2 * nh)), class: "size", hist: vec![], chain: vec![], parties, grown });
+                n_size += 1;
             }
         }
     }
@@ -186,8 +205,8 @@ pub fn cases(tier: Tier) -> (Vec<Case>, serde_json::Value) {
             if tier == Tier::Quick && ci != bi % 3 {
                 continue;
             }
-            out.push(Case { curve: c, prog: p.clone(), caps: Some((nh, nh)), class: "size", hist: vec![], chain: vec![] });
-            out.push(Case { curve: c, prog: p.clone(), caps: Some((nh + 1, 2 * nh)), class: "size", hist: vec![], chain: vec![] });
+            out.push(Case { curve: c, prog: p.clone(), caps: Some((nh, nh)), class: "size", hist: vec![], chain: vec![], parties: (1, 1), grown: false });
+            out.push(Case { curve: c, prog: p.clone(), caps: Some((nh + 1, 2 * nh)), class: "size", hist: vec![], chain: vec![], parties: (1, 1), grown: false });
             n_size += 2;
         }
     }
@@ -201,7 +220,7 @@ pub fn cases(tier: Tier) -> (Vec<Case>, serde_json::Value) {
                 }
                 let mut q = p.clone();
                 q.values = vals.clone();
-                out.push(Case { curve: c, prog: q, caps: None, class: "value", hist: vec![], chain: vec![] });
+                out.push(Case { curve: c, prog: q, caps: None, class: "value", hist: vec![], chain: vec![], parties: (1, 1), grown: false });
                 n_val += 1;
             }
         }
@@ -219,7 +238,7 @@ pub fn cases(tier: Tier) -> (Vec<Case>, serde_json::Value) {
                     if d == 2 && (hi + si + ci) % 3 != 0 {
                         continue;
                     }
-                    out.push(Case { curve: c, prog: sp.clone(), caps: None, class: "history", hist: h.clone(), chain: vec![] });
+                    out.push(Case { curve: c, prog: sp.clone(), caps: None, class: "history", hist: h.clone(), chain: vec![], parties: (1, 1), grown: false });
                     n_hist += 1;
                 }
             }
@@ -231,11 +250,11 @@ pub fn cases(tier: Tier) -> (Vec<Case>, serde_json::Value) {
         for (j, b) in subjects.iter().enumerate() {
             for c in CURVES.iter() {
                 let _ = (i, j);
-                out.push(Case { curve: c, prog: b.clone(), caps: None, class: "chained", hist: vec![], chain: vec![a.clone()] });
+                out.push(Case { curve: c, prog: b.clone(), caps: None, class: "chained", hist: vec![], chain: vec![a.clone()], parties: (1, 1), grown: false });
                 n_chain += 1;
                 if tier == Tier::Thorough {
                     for z in subjects.iter() {
-                        out.push(Case { curve: c, prog: z.clone(), caps: None, class: "chained", hist: vec![], chain: vec![a.clone(), b.clone()] });
+                        out.push(Case { curve: c, prog: z.clone(), caps: None, class: "chained", hist: vec![], chain: vec![a.clone(), b.clone()], parties: (1, 1), grown: false });
                         n_chain += 1;
                     }
                 }
@@ -247,7 +266,7 @@ pub fn cases(tier: Tier) -> (Vec<Case>, serde_json::Value) {
         "letters_phase1": program::P1_LETTERS.iter().map(|o| o.name()).collect::<Vec<_>>(),
         "letters_phase2": program::P2_LETTERS.iter().map(|o| o.name()).collect::<Vec<_>>(),
         "shape_programs": n_shape,
-        "size_family": format!("S({}) x kinds {{APairs,AOdd,M,X}} x capacity pairs from {{n^, n^+1, 2n^, 64}}", sn),
+        "size_family": format!("S({}) x kinds {{APairs,AOdd,M,X}} x capacity pairs from {{n^, n^+1, 2n^, 64}} + party capacities (2,1),(1,3) + generators grown by increase_capacity", sn),
         "size_cases": n_size,
         "value_cases": n_val,
         "chained_cases": n_chain,
@@ -303,8 +322,8 @@ pub fn main(o: &Opts) -> i32 {
                 rep.evaluations += 1;
                 rep.count("violation", 1);
                 rep.violation(Violation {
-                    key: json!({"curve": c.curve, "program": c.prog.name(), "caps": c.caps, "history": history::hist_name(&c.hist), "chain": c.chain.iter().map(|p| p.name()).collect::<Vec<_>>()}),
-                    case: json!({"curve": c.curve, "program": c.prog.name(), "caps": c.caps.map(|x| vec![x.0, x.1]), "history": history::hist_name(&c.hist), "chain": c.chain.iter().map(|p| p.name()).collect::<Vec<_>>()}),
+                    key: json!({"curve": c.curve, "program": c.prog.name(), "caps": c.caps, "history": history::hist_name(&c.hist), "chain": c.chain.iter().map(|p| p.name()).collect::<Vec<_>>(), "parties": [c.parties.0, c.parties.1], "grown": c.grown}),
+                    case: json!({"curve": c.curve, "program": c.prog.name(), "caps": c.caps.map(|x| vec![x.0, x.1]), "history": history::hist_name(&c.hist), "chain": c.chain.iter().map(|p| p.name()).collect::<Vec<_>>(), "parties": [c.parties.0, c.parties.1], "grown": c.grown}),
                     expected: expected.clone(),
                     observed: observed.clone(),
                     note: "satisfied constraint system".into(),
@@ -334,7 +353,9 @@ pub fn replay(path: &str, o: &Opts) -> i32 {
     let caps = case["caps"].as_array().map(|a| (a[0].as_u64().unwrap() as usize, a[1].as_u64().unwrap() as usize));
     let hist = history::parse_hist(case["history"].as_str().unwrap_or("")).expect("history");
     let chain: Vec<Program> = case["chain"].as_array().map(|a| a.iter().map(|x| Program::parse(x.as_str().unwrap()).expect("chain program")).collect()).unwrap_or_default();
-    let c = Case { curve, prog, caps, class: "replay", hist, chain };
+    let parties = case["parties"].as_array().map(|a| (a[0].as_u64().unwrap() as usize, a[1].as_u64().unwrap() as usize)).unwrap_or((1, 1));
+    let grown = case["grown"].as_bool().unwrap_or(false);
+    let c = Case { curve, prog, caps, class: "replay", hist, chain, parties, grown };
     let seed = v["seed"].as_u64().unwrap_or(o.seed);
     let run = || with_curve!(curve, G => { let env = Env::<G>::new(64); format!("{:?}", run_case::<G>(&env, &c, seed)) });
     let a = run();
